@@ -462,7 +462,7 @@ PROPS["C12"] = dict(
     assumptions=["every stage satisfies its one-step theorem (C09-C11)", "known finding tail_shrink_over_len excluded (a chain is claimed only while no stage is in a recorded class)",
                  ],
     strength="full given C09-C11; inherits their known-finding classes",
-    level_text="Coq theorems: if two stages satisfy the one-step correctness statement then so does their composition (the lower stage's guarantee that every emitted diff is applicable to its view is the upper stage's input guard), for limit changes of either stage, for chains of any length by iteration (stated for three), lifted to whole histories; for the NESTED POLL LOOPS of real stacked adapters (every level with its own ready buffer, pulling lazily from the level below; stacks of any height): one poll of the top keeps every level behind the level below by exactly its parked diffs, hands out only applicable diffs, at Pending every buffer and queue is empty and the consumer's view is the top stage's view of ... of the bottom stage's view of the source, and the stack always answers; and into_parts of Head/Tail/Skip returns the current view - at ANY moment of the adapter's life: the consumer of an unbatched adapter is behind it by exactly the diffs parked in its ready buffer (an invariant of the poll loop for any correct adapter), and the hand-over (as repaired in cc06c71: parked diffs dropped) starts the next stage from the adapter's own view with nothing parked; refuted for the code before the repair; end to end: an ObservableVector under any history, one of its subscribers and any correct adapter fed with what that subscriber's stream delivers - no panic, every emitted diff applicable, and at every Pending the view stands for the vector's current contents (instance spelled out for Head). Tied to the crate by running all two-stage chains and sampled three-stage chains of the real adapters with taps between the stages, by handing head/tail/skip over by themselves at arbitrary moments (mode hand: after single polls, drains, limit changes, with a diff still parked), and 1-2 stage stacks end to end on a real ObservableVector subscriber (oracle-only stream).",
+    level_text="Coq theorems: if two stages satisfy the one-step correctness statement then so does their composition (the lower stage's guarantee that every emitted diff is applicable to its view is the upper stage's input guard), for limit changes of either stage, for chains of any length by iteration (stated for three), lifted to whole histories; for the NESTED POLL LOOPS of real stacked adapters (every level with its own ready buffer, pulling lazily from the level below; stacks of any height): one poll of the top keeps every level behind the level below by exactly its parked diffs, hands out only applicable diffs, at Pending every buffer and queue is empty and the consumer's view is the top stage's view of ... of the bottom stage's view of the source, and the stack always answers - also with the plain stream of a subscriber of an ObservableVector at the bottom, in any history of the vector (ChainE2E.v: no panic, applicable items, at Pending the view is the composition of the stages' views of the vector's current contents, every poll terminates); and into_parts of Head/Tail/Skip returns the current view - at ANY moment of the adapter's life: the consumer of an unbatched adapter is behind it by exactly the diffs parked in its ready buffer (an invariant of the poll loop for any correct adapter), and the hand-over (as repaired in cc06c71: parked diffs dropped) starts the next stage from the adapter's own view with nothing parked; refuted for the code before the repair; end to end: an ObservableVector under any history, one of its subscribers and any correct adapter fed with what that subscriber's stream delivers - no panic, every emitted diff applicable, and at every Pending the view stands for the vector's current contents (instance spelled out for Head). Tied to the crate by running all two-stage chains and sampled three-stage chains of the real adapters with taps between the stages, by handing head/tail/skip over by themselves at arbitrary moments (mode hand: after single polls, drains, limit changes, with a diff still parked), and 1-2 stage stacks end to end on a real ObservableVector subscriber (oracle-only stream).",
     level_note="Trusted: as C09. Known finding F4 (tail_shrink_over_len) is inherited and reported as KNOWN-FINDING; F7 (into_parts handed the source copy) was repaired in 8c08ab1, F9 (hand-over in the middle of a burst replayed the parked diffs) in cc06c71.")
 
 
